@@ -111,6 +111,11 @@ def make_spy_grad(log, mode, script=None):
         base = GradientAscentOpt if mode == "ga" else AdamOpt
 
         class SpyReal(base):
+            def __init__(self, *a, **kw):
+                super().__init__(*a, **kw)
+                if script is not None:
+                    script.setdefault("grad_instances", []).append(self)
+
             def reset(self, theta0):
                 log.append(("grad_reset", np.array(theta0, copy=True)))
                 super().reset(theta0)
@@ -126,6 +131,8 @@ def make_spy_grad(log, mode, script=None):
             self._theta = np.array(theta0, dtype=float, copy=True)
             self.lr = lr
             log.append(("grad_init", np.array(theta0, copy=True), lr))
+            if script is not None:
+                script.setdefault("grad_instances", []).append(self)
 
         @property
         def theta(self):
